@@ -42,7 +42,7 @@ PROFILES = {
 	"C10": dict(tune=3, power=3, fmt=6, meta=26, drop=2, misc=2, burst=50, idle=4),
 	"C12": dict(tune=10, power=30, fmt=2, meta=1, drop=1, misc=3, burst=30, idle=10),
 	"C18": dict(tune=2, power=3, fmt=6, meta=2, drop=26, misc=1, burst=54, idle=4),
-	"C14": dict(tune=8, power=8, fmt=5, meta=8, drop=5, misc=8, burst=40, idle=4),
+	"C14": dict(tune=6, power=6, fmt=4, meta=6, drop=4, misc=6, burst=34, idle=4, hostile=30),
 }
 
 
@@ -321,6 +321,126 @@ class Gen:
 				op2["dt"] = rng.choice([0, 0, rng.randrange(P_NS)])
 				self.ops.append(op2)
 
+	# ---- hostile input (C14) -----------------------------------------------------------
+	def op_hostile(self):
+		rng = self.rng
+		i = self.pick_trx()
+		r = rng.random()
+		if r < 0.45:
+			self.hostile_ctrl(i)
+		elif r < 0.85:
+			self.hostile_data(i)
+		else:
+			self.ops.append({"op": "parse", "cls": rng.choice(["tx", "rx", "rx-if"]), "hex": self.garbage_trxd().hex(), "dt": 0, "hostile": True})
+
+	def valid_cmd_text(self):
+		rng = self.rng
+		return rng.choice(["POWERON", "POWEROFF", "RXTUNE %d" % rng.choice(self.pool), "TXTUNE %d" % rng.choice(self.pool),
+			"SETFORMAT 1", "SETPOWER 10", "SETTA 3", "FAKE_TOA 10 2", "FAKE_RSSI -60 3", "FAKE_CI 90 5", "FAKE_DROP 3 2",
+			"RFMUTE 1", "MEASURE %d" % rng.choice(self.pool), "NOMTXPOWER", "FAKE_TRXC_DELAY 1",
+			"SETFH 5 1 %d %d %d %d" % tuple(rng.choice(self.pool) for _ in range(4))])
+
+	def hostile_ctrl(self, i):
+		rng = self.rng
+		kind = rng.choice(["non-utf8", "non-numeric", "non-numeric", "non-numeric", "hsn-range", "garbage", "overlong",
+			"embedded-nul", "no-space", "missing-args", "huge", "float", "whitespace", "third-party"])
+		follow = None
+		raw = None
+		if kind == "non-utf8":
+			base = ("CMD " + self.valid_cmd_text()).encode()
+			pos = rng.randrange(len(base) + 1)
+			raw = base[:pos] + bytes([rng.choice([0xff, 0xfe, 0x80, 0xc3, 0xe2])]) + base[pos:] + b"\0"
+		elif kind == "non-numeric":
+			verb = rng.choice(["RXTUNE", "TXTUNE", "MEASURE", "SETFORMAT", "SETPOWER", "RFMUTE", "SETTA", "FAKE_TOA", "FAKE_TOA",
+				"FAKE_RSSI", "FAKE_RSSI", "FAKE_CI", "FAKE_CI", "FAKE_DROP", "FAKE_DROP", "FAKE_TRXC_DELAY", "SETFH"])
+			bad = rng.choice(["abc", "", "1.5", "0x10", "--1", "1e3", "None", "\u0661x", "12a", "+-3", "9" * 30 + "z"])
+			forms = {"FAKE_TOA": 2, "FAKE_RSSI": 2, "FAKE_CI": 2, "FAKE_DROP": 2}
+			argc = forms.get(verb, 1) if rng.random() < 0.7 else 1
+			if verb == "SETFH":
+				argc = rng.choice([4, 6])
+			args = [str(rng.randint(-5, 200)) for _ in range(argc)]
+			args[rng.randrange(argc)] = bad
+			raw = ("CMD %s %s\0" % (verb, " ".join(args))).encode()
+			absol = {"FAKE_TOA": "FAKE_TOA %d %d" % (rng.randint(-50, 50), rng.choice([0, 0, 3])),
+				"FAKE_RSSI": "FAKE_RSSI %d %d" % (rng.randint(-100, -50), rng.choice([0, 2])),
+				"FAKE_CI": "FAKE_CI %d %d" % (rng.randint(0, 200), rng.choice([0, 4])),
+				"FAKE_DROP": "FAKE_DROP %d %d" % (rng.randint(0, 3), rng.randint(1, 4)),
+				"SETFH": "SETFH %d %d %d %d" % (rng.randint(0, 63), 0, rng.choice(self.pool), rng.choice(self.pool))}
+			if verb in absol and (verb == "SETFH" or rng.random() < 0.5):
+				follow = absol[verb]
+		elif kind == "hsn-range":
+			hsn = rng.choice([64, 65, 100, 127, 255, 1000, -1, -64, 10 ** 9])
+			n = rng.choice([1, 2, 3, 5])
+			ch = " ".join("%d %d" % (rng.choice(self.pool), rng.choice(self.pool)) for _ in range(n))
+			raw = ("CMD SETFH %d %d %s\0" % (hsn, rng.choice([0, 1, -1, 70]), ch)).encode()
+			if rng.random() < 0.5:
+				follow = "SETFH %d 0 %d %d" % (rng.randint(0, 63), rng.choice(self.pool), rng.choice(self.pool))
+			elif rng.random() < 0.5:
+				follow = "POWEROFF"
+		elif kind == "garbage":
+			raw = bytes(rng.getrandbits(8) for _ in range(rng.choice([0, 1, 3, 4, 5, 16, 100, 300])))
+			if rng.random() < 0.5:
+				raw = b"CMD" + raw
+		elif kind == "overlong":
+			verb = rng.choice(["SETFH 1 0", "RXTUNE", "FOO", "POWERON"])
+			raw = ("CMD " + verb + " " + " ".join(
+				str(rng.choice(self.pool)) for _ in range(rng.choice([700, 1200])))).encode() + b"\0"
+			if verb.startswith("SETFH"):  # may or may not be applied: define the state again at once
+				follow = "SETFH %d 0 %d %d" % (rng.randint(0, 63), rng.choice(self.pool), rng.choice(self.pool))
+		elif kind == "embedded-nul":
+			raw = ("CMD " + self.valid_cmd_text()).encode().replace(b" ", b"\0", 1) + b"\0"
+		elif kind == "no-space":
+			raw = ("CMD" + self.valid_cmd_text().replace(" ", "")).encode() + b"\0"
+		elif kind == "missing-args":
+			raw = ("CMD " + self.valid_cmd_text().split(" ")[0] + rng.choice([" ", "  ", " \0", "\0\0", ""])).encode()
+		elif kind == "huge":
+			raw = ("CMD %s %s\0" % (rng.choice(["RXTUNE", "SETTA", "SETPOWER", "FAKE_TOA", "SETFORMAT"]),
+				rng.choice(["9" * 40, "-" + "9" * 40, str(2 ** 64), str(-2 ** 63)]))).encode()
+			follow = rng.choice(["SETTA 0", "SETPOWER 0", "FAKE_TOA 0 0", "FAKE_TRXC_DELAY 0", "RXTUNE %d" % self.pool[0]])
+			kind = "huge"
+		elif kind == "float":
+			raw = b"CMD FAKE_TRXC_DELAY 2.5\0"
+		elif kind == "whitespace":
+			raw = ("CMD  " + self.valid_cmd_text().replace(" ", rng.choice(["  ", "\t", " \n"]))).encode() + b"\0"
+		else:
+			raw = ("CMD " + self.valid_cmd_text() + "\0").encode()
+		op = {"op": "rawctrl", "trx": i, "hex": raw.hex(), "dt": self.dt(), "hostile": True, "mut": kind}
+		if kind == "third-party":
+			op["src"] = 50000 + rng.randrange(100)
+		self.ops.append(op)
+		if follow:
+			self.ops.append({"op": "cmd", "trx": i, "text": follow, "dt": 0})
+
+	def garbage_trxd(self):
+		rng = self.rng
+		r = rng.random()
+		if r < 0.3:
+			return bytes(rng.getrandbits(8) for _ in range(rng.choice([0, 1, 4, 5, 6, 7, 8, 10, 11, 12, 100, 154, 156, 160, 500, 600])))
+		st = self.st[self.pick_trx()]
+		ver = rng.choice([st["ver"], st["ver"], 0, 1, 2, 7, 15])
+		bits = bytes(rng.choice([0, 1, 1, 0, 2, 255, 127]) if rng.random() < 0.1 else rng.getrandbits(1)
+			for _ in range(rng.choice([0, 1, 100, 147, 148, 149, 150, 296, 443, 444, 445, 446, 506, 600])))
+		hdr = bytes([((ver & 0xf) << 4) | rng.choice([rng.randrange(8), 0x08 | rng.randrange(8)])]) + \
+			rng.choice([0, 1, HYPER - 1, HYPER, HYPER + 1, 2 ** 32 - 1, rng.randrange(2 ** 32)]).to_bytes(4, "big") + \
+			bytes([rng.randrange(256)])
+		data = hdr + bits
+		if rng.random() < 0.3:
+			data = data[:rng.randrange(len(data) + 1)]
+		if rng.random() < 0.2:
+			b = bytearray(data)
+			for _ in range(rng.choice([1, 2, 8])):
+				if b:
+					b[rng.randrange(len(b))] ^= 1 << rng.randrange(8)
+			data = bytes(b)
+		return data
+
+	def hostile_data(self, i):
+		rng = self.rng
+		op = {"op": "rawdata", "trx": i, "hex": self.garbage_trxd().hex(), "dt": self.dt(), "hostile": True}
+		if rng.random() < 0.1:
+			op["src"] = 50000 + rng.randrange(100)
+		self.ops.append(op)
+
 	def op_idle(self):
 		self.ops.append({"op": "idle", "dt": self.rng.randrange(1, 12) * P_NS})
 
@@ -361,6 +481,7 @@ class World:
 		self.env_log = []
 		self.saved = []
 		self.app = None
+		self.rx_if = None
 		self.faults = {}
 
 	def fired(self, k, n=1):
@@ -481,6 +602,9 @@ class World:
 		o = op["op"]
 		if o == "idle":
 			return
+		if o == "parse":
+			self.do_parse(op)
+			return
 		t = trx[op["trx"] % len(trx)]
 		if o == "cmd":
 			text = "CMD " + op["text"] + ("\0" if op.get("nul", True) else "")
@@ -496,6 +620,31 @@ class World:
 			data = rc.enc_tx(op.get("ver", 0), op["tn"], fn, op["pwr"], burst_bits(op))
 			self.send_to_trx(t, "data", data, op)
 
+	def do_parse(self, op):
+		"""Feed octets straight into the toolkit's message parsers / the MS-side receiver."""
+		data = bytes.fromhex(op["hex"])
+		dm = toolkit.tk("data_msg")
+		sim = self.sim
+		try:
+			if op["cls"] == "tx":
+				dm.TxMsg().parse_msg(bytearray(data))
+			elif op["cls"] == "rx":
+				dm.RxMsg().parse_msg(bytearray(data))
+			else:
+				di = toolkit.tk("data_if")
+				if self.rx_if is None:
+					self.rx_if = di.DATAInterface("127.0.0.1", 65001, "0.0.0.0", 65002)
+				self.net.deliver(65002, data, ("127.0.0.1", 65001))
+				self.rx_if.recv_rx_msg()
+			sim.record("parse-ok", cls=op["cls"])
+		except ValueError:
+			if op["cls"] == "rx-if":
+				sim.record("parse-raised", cls=op["cls"], exc="ValueError", msg="escaped recv_rx_msg")
+			else:
+				sim.record("parse-ok", cls=op["cls"], rejected=True)
+		except Exception as e:
+			sim.record("parse-raised", cls=op["cls"], exc=type(e).__name__, msg=str(e)[:100])
+
 	def run_ops(self):
 		sim = self.sim
 		ops = self.plan["ops"]
@@ -507,7 +656,9 @@ class World:
 		sim.run(until=t + 2 * P_NS)
 		# drain: let the socket thread finish what it has read (delayed responses, queued datagrams)
 		for _ in range(400):
-			sock = [x for x in sim.threads if x.name == "sock"]
+			sock = [x for x in sim.threads if x.name == "sock" and x.state != "done"]
+			if not sock:
+				break
 			busy = any(s.queue for s in self.net.by_port.values() if s.on_rx is None)
 			if (not sock or (sock[0].blocked_on and sock[0].blocked_on[0] == "select")) and not busy:
 				break
@@ -596,6 +747,9 @@ class UmEngine:
 			dead = [d for d in sim.deaths]
 			viols = mon.finish(sim.now, dead)
 			for t, k, kw in sim.history:
+				if k == "parse-raised":
+					viols.insert(0, {"clause": "hostile.parser-raised", "detail": dict(kw),
+						"signature": "hostile.parser-raised/%s/%s" % (kw["cls"], kw["exc"]), "owners": ["C14"]})
 				if k == "thread-death":
 					sock = kw["thread"] == "sock"
 					owners = ["C05", "C03", "C12"] if sock else ["C03", "C12", "C02", "C10", "C18"]
@@ -609,6 +763,17 @@ class UmEngine:
 			sim.abort()
 			w.restore()
 			toolkit.release_logs()
+		if hostile:
+			for v in viols:
+				if "C14" not in v["owners"]:
+					v["owners"] = list(v["owners"]) + ["C14"]
+			kinds = {}
+			for op in plan["ops"]:
+				if op.get("hostile"):
+					k = "hostile-" + (op.get("mut") or op["op"])
+					kinds[k] = kinds.get(k, 0) + 1
+			for k, n in kinds.items():
+				w.fired(k, n)
 		res.violations = viols
 		res.sim_ns = sim.now
 		res.steps = len(sim.history)
